@@ -139,11 +139,19 @@ ASleep == \E d \in AdvD :
             /\ left' = left - 1 /\ budget' = budget - 1
             /\ UNCHANGED <<queue, cancelled, mode, target, enabled, cur, nextId, top, ran, clocks, due, errs, amb, bumps>>
 
+\* an action may call advance_by() on the scheduler that is running it: while a run is in progress (and has not been
+\* stopped) the nested call returns at once - it neither runs anything, nor moves the clock, nor ends the enclosing run
+AAdvBy == \E d \in AdvD :
+            /\ cur # 0 /\ left > 0 /\ budget > 0 /\ d > 0 /\ enabled
+            /\ body' = [body EXCEPT ![cur] = Append(@, Cmd("advance_by", d, 0))]
+            /\ left' = left - 1 /\ budget' = budget - 1
+            /\ UNCHANGED <<clock, queue, cancelled, mode, target, enabled, cur, nextId, top, ran, clocks, due, errs, amb, bumps>>
+
 AEnd == /\ cur # 0 /\ cur' = 0 /\ left' = 0
         /\ UNCHANGED <<clock, queue, cancelled, mode, target, enabled, budget, nextId, top, body, ran, clocks, due, errs, amb, bumps>>
 
 Next == TSched \/ TCancel \/ TStart \/ TAdvTo \/ TAdvBy \/ TSleep
-        \/ LoopPick \/ LoopExit \/ SpinBump \/ ASched \/ ACancel \/ AStop \/ ASleep \/ AEnd
+        \/ LoopPick \/ LoopExit \/ SpinBump \/ ASched \/ ACancel \/ AStop \/ ASleep \/ AAdvBy \/ AEnd
 
 Spec == Init /\ [][Next]_vars /\ WF_vars(LoopPick \/ LoopExit \/ AEnd)
 
